@@ -19,7 +19,7 @@ func init() {
 			"stored in a field/global/captured variable, or passed to a non-logging callee (OnError, fmt.Errorf whose result is followed). " +
 			"An error that is only compared, only logged, or discarded is a violation.",
 		Props: []string{"C06", "C13"},
-		Floor: 30,
+		Floor: 27,
 		Run:   ruleErr,
 		Exceptions: []string{
 			"(*Store).writeSegments$1 -> (*bufferedSectionWriter).Stop (x2): the onError closure runs when an error is already being returned; the first error wins",
@@ -31,7 +31,7 @@ func init() {
 			"(the result of the last write request) precedes close(b.stopCh), and the err field of the received ioBuf is stored into b.err. " +
 			"In the writer goroutine the error sent back on resCh must originate from the WriteAt call.",
 		Props: []string{"C06"},
-		Floor: 2,
+		Floor: 1,
 		Run:   ruleErr2,
 	})
 }
